@@ -896,8 +896,8 @@ public:
     /**
      * Load outIndex array
      **/
-    assert(edgeIndData.data());
-    if (!edgeIndData.data()) {
+    // (an array of size 0 has no storage)
+    if (numNodes && !edgeIndData.data()) {
       GALOIS_DIE("out of memory");
     }
 
@@ -909,8 +909,8 @@ public:
     /**
      * Load edgeDst array
      **/
-    assert(edgeDst.data());
-    if (!edgeDst.data()) {
+    // (an array of size 0 has no storage)
+    if (numEdges && !edgeDst.data()) {
       GALOIS_DIE("out of memory");
     }
 
@@ -926,21 +926,23 @@ public:
         readPosition += sizeof(uint32_t);
       }
     } else if (version == 2) {
-      graphFile.read(reinterpret_cast<char*>(edgeDst.data()),
-                     sizeof(uint64_t) * numEdges);
+      // version 2 stores 64-bit destinations (narrowed here, node ids of this
+      // graph are 32 bits wide) and has no padding
+      for (uint64_t e = 0; e < numEdges; ++e) {
+        uint64_t dst;
+        graphFile.read(reinterpret_cast<char*>(&dst), sizeof(dst));
+        edgeDst[e] = dst;
+      }
       readPosition =
           ((4 + numNodes) * sizeof(uint64_t) + numEdges * sizeof(uint64_t));
-      if (numEdges % 2) {
-        readPosition += sizeof(uint64_t);
-      }
     } else {
       GALOIS_DIE("unknown file version: ", version);
     }
     /**
      * Load edge data array
      **/
-    assert(edgeData.data());
-    if (!edgeData.data()) {
+    // (an array of size 0 has no storage)
+    if (numEdges && !edgeData.data()) {
       GALOIS_DIE("out of memory");
     }
     graphFile.seekg(readPosition);
@@ -978,8 +980,8 @@ public:
     /**
      * Load outIndex array
      **/
-    assert(edgeIndData.data());
-    if (!edgeIndData.data()) {
+    // (an array of size 0 has no storage)
+    if (numNodes && !edgeIndData.data()) {
       GALOIS_DIE("out of memory");
     }
     // start position to read index data
@@ -990,8 +992,8 @@ public:
     /**
      * Load edgeDst array
      **/
-    assert(edgeDst.data());
-    if (!edgeDst.data()) {
+    // (an array of size 0 has no storage)
+    if (numEdges && !edgeDst.data()) {
       GALOIS_DIE("out of memory");
     }
     readPosition = ((4 + numNodes) * sizeof(uint64_t));
@@ -1000,8 +1002,13 @@ public:
       graphFile.read(reinterpret_cast<char*>(edgeDst.data()),
                      sizeof(uint32_t) * numEdges);
     } else if (version == 2) {
-      graphFile.read(reinterpret_cast<char*>(edgeDst.data()),
-                     sizeof(uint64_t) * numEdges);
+      // version 2 stores 64-bit destinations (narrowed here, node ids of this
+      // graph are 32 bits wide)
+      for (uint64_t e = 0; e < numEdges; ++e) {
+        uint64_t dst;
+        graphFile.read(reinterpret_cast<char*>(&dst), sizeof(dst));
+        edgeDst[e] = dst;
+      }
     } else {
       GALOIS_DIE("unknown file version: ", version);
     }
